@@ -42,8 +42,8 @@ Fixpoint basename_aux (acc : string) (s : string) : string :=
   end.
 Definition basename (s : string) : string := basename_aux s s.
 
-(* pathlib.PurePath(name).suffix for one component: from the last dot, provided the
-   dot is neither the first nor the last character *)
+(* os.path.splitext(name)[1] for one component: from the last dot, provided a character other
+   than a dot precedes it (leading dots do not start an extension) *)
 Fixpoint last_dot_tail (s : string) : option string :=
   match s with
   | EmptyString => None
@@ -53,14 +53,12 @@ Fixpoint last_dot_tail (s : string) : option string :=
       | None => if Ascii.eqb c "."%char then Some s else None
       end
   end.
-Definition suffix (name : string) : string :=
-  match name with
-  | EmptyString => ""
-  | String _ r =>                                  (* a leading dot does not start a suffix *)
-      match last_dot_tail r with
-      | Some t => if String.eqb t "." then "" else t
-      | None => ""
-      end
+Fixpoint strip_dots (s : string) : string :=
+  match s with
+  | String c r => if Ascii.eqb c "."%char then strip_dots r else s
+  | EmptyString => EmptyString
   end.
+Definition suffix (name : string) : string :=
+  match last_dot_tail (strip_dots name) with Some t => t | None => "" end.
 
 Definition mem_str (x : string) (l : list string) : bool := existsb (String.eqb x) l.
